@@ -10,7 +10,8 @@ extern "C" {
 }
 
 static void nopcase(Out& out, const char* what) {
-  fprintf(out.ops, "ca nop");
+  static int k = 0;
+  fprintf(out.ops, "ca nop mem_pairs %s #%d", what, k++);
   fprintf(out.real, "nop");
   out.endcase("ok");
   out.count(what);
